@@ -89,14 +89,20 @@ func (m *EpochMon) AfterBlock(s *Sim, b *BlockRes) {
 		lo = m.starts[0]
 	}
 	var qs []uint64
-	if m.Full {
+	if m.Full && h-lo <= 300 { // (with a memory window of thousands of blocks the full scan of every block is quadratic: sample then)
 		for x := lo; x <= h; x++ {
 			qs = append(qs, x)
 		}
 	} else {
 		qs = append(qs, lo, h)
+		inMem := 0
 		for _, e := range m.starts {
 			if e >= lo {
+				inMem++
+			}
+		}
+		for _, e := range m.starts {
+			if e >= lo && (inMem <= 40 || s.R.Intn(inMem) < 40) { // at most ~40 epoch boundaries per block
 				if e > lo {
 					qs = append(qs, e-1)
 				}
@@ -136,7 +142,7 @@ func profEpochs() *Profile {
 
 func TestC16(t *testing.T) {
 	run := ev.Start("C16")
-	nHist, nOps := run.Pick(8, 60), run.Pick(2500, 6000)
+	nHist, nOps := run.Pick(8, 30), run.Pick(2500, 6000)
 	for h := 0; h < nHist; h++ {
 		var em *EpochMon
 		s := History(t, run, profEpochs(), h, nOps, func(id string) []Monitor {
